@@ -166,3 +166,16 @@ pub fn stringset<S: Src>(s: &mut S, from_draw: bool) -> Outcome {
     }
     out(bad, "string-set", format!("{:?}", v))
 }
+
+pub fn stringset_empty() -> Outcome {
+    let v = StringHashSet::new();
+    let text = serde_json::to_string(&v).unwrap();
+    let mut bad = None;
+    if text != "{}" {
+        bad = Some(format!("the empty string set is written as {}", text));
+    }
+    if bad.is_none() {
+        bad = three_ways(&v, &|x: &StringHashSet, y: &StringHashSet| x == y);
+    }
+    out(bad, "empty-string-set", "StringHashSet::new()".into())
+}
